@@ -100,7 +100,7 @@ def _r1(ctx, repo):
     if len(asg) != 1:
         ctx.ob("C09-R1", init.fq, "self.args has a single definition", False, node=init.node, construct="self.args definition")
     else:
-        v = asg[0].value
+        v = resolve_single_assign(asg[0].value, init.node)
         verdict = None
         if isinstance(v, ast.ListComp) and len(v.generators) == 1:
             it = v.generators[0].iter
@@ -118,8 +118,17 @@ def _r1(ctx, repo):
     gp = repo.fn("types:KGLambda._get_pos_args")
     ctx.instance("C09-R1", gp.fq)
     rets = [n for n in walk_local(gp.node) if isinstance(n, ast.Return)]
-    ok = bool(rets) and all(isinstance(r.value, ast.Name) for r in rets)
     comps = [n for n in walk_local(gp.node) if isinstance(n, ast.ListComp) and isinstance(n.generators[0].iter, ast.Attribute) and dotted(n.generators[0].iter) == "self.args"]
+    # that comprehension is what a non-wildcard collection returns (directly or through one local)
+    def _flows(comp):
+        for r in rets:
+            if r.value is comp:
+                return True
+            if isinstance(r.value, ast.Name) and any(isinstance(a, ast.Assign) and a.value is comp and any(isinstance(t, ast.Name) and t.id == r.value.id for t in a.targets)
+                                                     for a in walk_local(gp.node)):
+                return True
+        return False
+    ok = bool(rets) and any(_flows(c) for c in comps)
     ctx.ob("C09-R1", gp.fq, "non-wildcard collection reads exactly ctx[x] for x in self.args, in order", ok and len(comps) == 1 and
            isinstance(comps[0].elt, ast.Subscript) and isinstance(comps[0].elt.slice, ast.Name) and comps[0].elt.slice.id == comps[0].generators[0].target.id,
            node=gp.node, construct="ctx[x] for x in self.args")
@@ -322,17 +331,30 @@ def _r4(ctx, repo):
             ctx.ob("C09-R4", scv.fq, "the wrapped callable carries the arity inferred from its signature", ok, node=n, construct="KGCall(KGLambda(v), arity=get_arity())")
     gi = repo.fn("interpreter:KlongInterpreter.__getitem__")
     ctx.instance("C09-R4", gi.fq)
-    rets = [n for n in walk_local(gi.node) if isinstance(n, ast.Return)]
-    ok = len(rets) == 1 and isinstance(rets[0].value, ast.IfExp)
-    if ok:
-        v = rets[0].value
-        t = src(v.test)
-        ok = isinstance(v.orelse, ast.Name) and "KGFn" in t and isinstance(v.body, ast.Call) and callee_name(v.body) == "KGFnWrapper"
-        if ok:
-            rdef = resolve_single_assign(v.orelse, gi.node)
-            ok = isinstance(rdef, ast.Subscript) and dotted(rdef.value) == "self._context"
-            kw = {k.arg: src(k.value) for k in v.body.keywords}
-            ok = ok and "sym" in kw
+    from ..flow import return_alts
+    alts = return_alts(gi.node)
+
+    def raw(e):
+        d = resolve_single_assign(e, gi.node) if isinstance(e, ast.Name) else e
+        return isinstance(d, ast.Subscript) and dotted(d.value) == "self._context"
+
+    def fn_fact(facts):
+        """True/False when the facts say the value is / is not a KGFn, None when they say nothing"""
+        for e, pol in facts:
+            if isinstance(e, ast.Call) and callee_name(e) in ("issubclass", "isinstance") and len(e.args) == 2 and "KGFn" in src(e.args[1]):
+                return pol
+        return None
+    ok = bool(alts)
+    seen_raw = seen_wrapped = False
+    for facts, v, _r in alts:
+        ff = fn_fact(facts)
+        if v is not None and raw(v) and ff is not True:
+            seen_raw = True
+        elif isinstance(v, ast.Call) and callee_name(v) == "KGFnWrapper" and ff is True and len(v.args) >= 2 and raw(v.args[1]) and any(k.arg == "sym" for k in v.keywords):
+            seen_wrapped = True
+        else:
+            ok = False
+    ok = ok and seen_raw and seen_wrapped
     ctx.ob("C09-R4", gi.fq, "__getitem__ returns stored non-function values as they are, and functions in a wrapper that knows its symbol", ok, node=gi.node,
            construct="read path unconverted", msg="the read path converts values (or wraps functions without their symbol)")
     for fq in ("interpreter:KlongInterpreter.__setitem__", "interpreter:KlongInterpreter.__delitem__"):
@@ -372,13 +394,21 @@ def _in_same_if(n, wraps):
 def _r5(ctx, repo):
     f = repo.fn("sys_fn:_handle_import")
     sites = [c for c in calls_in(f.node) if callee_name(c) == "KGLambda" and any(k.arg == "wildcard" and isinstance(k.value, ast.Constant) and k.value.value is True for k in c.keywords)]
-    ctx.floor("C09-R5", "wildcard wrapping sites in _handle_import", len(sites), 2)
+    ctx.floor("C09-R5", "wildcard wrapping sites in _handle_import", len(sites), 1)
+    from ..common import emptiness, justified
+    # the collections of required parameters: comprehensions over the signature that keep parameters without a default
+    required = {n.targets[0].id for n in walk_local(f.node) if isinstance(n, ast.Assign) and isinstance(n.targets[0], ast.Name) and isinstance(n.value, ast.ListComp) and
+                any(isinstance(c, ast.Compare) and isinstance(c.ops[0], ast.Eq) and "Parameter.empty" in src(c) for c in ast.walk(n.value))}
+    ctx.control("C09-R5", f"the collection of required parameters is recognised ({sorted(required)})", bool(required))
+
+    def accept(e, pol):
+        if isinstance(e, ast.Compare) and isinstance(e.ops[0], ast.In) and isinstance(e.left, ast.Constant) and e.left.value == "args" and pol:
+            return True                       # *args in the signature
+        return emptiness(e, pol) in required   # no required parameter
     for c in sites:
         ctx.instance("C09-R5", f.fq, src(c)[:60])
-        facts = atoms_at(c, f.node)
-        has_varargs = any(isinstance(e, ast.Compare) and isinstance(e.ops[0], ast.In) and isinstance(e.left, ast.Constant) and e.left.value == "args" and p for e, p in facts)
-        no_required = any(isinstance(e, ast.Name) and "required" in e.id and not p for e, p in facts)
-        ctx.ob("C09-R5", f.fq, "wildcard collection only under `'args' in signature` or `not required_args`", has_varargs or no_required, node=c,
+        ok = justified(atoms_at(c, f.node), f.node, accept)
+        ctx.ob("C09-R5", f.fq, "wildcard collection only under `'args' in signature` or an empty collection of required parameters", ok, node=c,
                construct="wildcard only without required parameters",
                msg="a callable with required parameters is wrapped in wildcard mode: it is called with whatever x,y,z are visible in enclosing frames, not with exactly its arguments")
 
